@@ -13,7 +13,7 @@ RULE = ('TLC checks chunking independence of the transcribed parser + connection
         'random cuts; each chunk is a separate read because the driver waits for event-loop iterations, hook H2); the trace '
         'pairs the i-th reply frame read by an independent RESP reader with the i-th request and with the reply the server '
         'computed for it (hook H3); TLC validates every pair against the spec. Pipelines whose replies add up to several MiB '
-        '(1 MiB strings, 60 000-element lists, mixed with errors and nils) are sent before anything is read, so that the '
+        '(1 MiB strings, 60 000-element lists, mixed with errors and nils) and deep pipelines (100 to 10 000 short requests in one write, around 128/256/512/1024) are sent before anything is read, so that the '
         'server must resume partial socket writes; their payloads are compared by the harness (chk event; too large for TLC). '
         'Distinct = distinct (pipeline, segmentation).')
 ASSUMPTIONS = ['the i-th reply on a connection answers the i-th request (that pairing is the property)',
@@ -311,6 +311,30 @@ def run(ctx):
             cid += 1
             run_pipeline(ctx, srv, tr, cid, prefix, [], raw_tail=(raw, kind))
             cases += 1
+    # deep pipelines: hundreds to thousands of short requests in ONE write (many frames per read, several 8 KiB reads per
+    # pipeline, requests straddling the read-buffer boundary), whole and cut in two inside a request
+    depths = [100, 127, 128, 129, 130, 255, 256, 257, 400, 1000, 3000] if ctx.quick else [100, 127, 128, 129, 130, 200, 255, 256, 257, 300, 400, 511, 512, 513, 1000, 1023, 1024, 1025, 2000, 3000, 5000, 10000]
+    nd = 0
+    for depth in depths:
+        reqs = []
+        for i in range(depth):
+            k = (i + depth) % 5
+            reqs.append([[b'PING'], [b'ECHO', g.marker()], [b'INCR', b'deep:n'], [b'GET', b'nokey'], [b'NOSUCH']][k])
+        n = sum(len(resp.enc_cmd(a)) for a in reqs)
+        for cuts in ([], [n - 7], [rnd.randrange(1, n), n - 1]):
+            cid += 1
+            run_pipeline(ctx, srv, tr, cid, reqs, sorted(set(cuts)))
+            cases += 1
+            nd += 1
+            if not srv.alive():
+                tr.emit({'k': 'crash', 'status': srv.exit_status()})
+                break
+        if tr.n > 20000 and srv.alive():
+            ctx.validate(tr, label='pipe-deep')
+            tr = ctx.new_trace('pipe')
+            s0 = Session(srv, tr)
+            c0 = s0.open(); s0.cmd(c0, [b'FLUSHALL']); s0.close(c0)
+    ctx.extra_cov['deep_pipelines'] = nd
     if srv.alive():
         nl = large_replies(ctx, srv, tr)
         cases += nl
